@@ -1,2 +1,7 @@
 import Kanzi.Model.Normalize
 import Kanzi.Model.Protocol
+import Kanzi.Spec.Bits
+import Kanzi.Properties.C16
+import Kanzi.Properties.C07
+import Kanzi.Properties.C03_facts
+import Kanzi.Properties.C18_facts
